@@ -123,6 +123,28 @@ def run(ck: vlib.Check):
         ck.tie_broken("model-build", "RawExtract.v", mlog)
     if exe is None or mexe is None:
         return
+    # ---- 2a binding glue: the parser walks `ptr .. ptr + size` of the array it is given, so the binding must hand it C-contiguous
+    #         words only (pybind11: array_t<uint32_t, c_style | forcecast> converts any other layout; plain array_t<uint32_t> passes
+    #         strided views through unchanged).  Source obligation + the experiment on the extension that can be imported.
+    import re as _re
+    cpp_dir = vlib.SRC / "besio" / "cpp"
+    sig = _re.findall(r"py_read_bes_raw\s*\(\s*(py::array_t<[^)]*?>)\s*data", (cpp_dir / "raw_io.cc").read_text() + (cpp_dir / "raw_io.hh").read_text())
+    ctor = _re.findall(r"RawBinaryParser\s*\(\s*(py::array_t<[^)]*?>)\s*data", (cpp_dir / "raw_io.hh").read_text())
+    contiguity_check = bool(_re.search(r"c_style|c_contiguous|C_CONTIGUOUS|strides\s*\(", (cpp_dir / "raw_io.cc").read_text() + (cpp_dir / "raw_io.hh").read_text()))
+    ck.cov["binding_signature"] = {"py_read_bes_raw": sig, "RawBinaryParser": ctor, "requires_or_checks_contiguity": contiguity_check}
+    rc_s, so_s, se_s = vlib.run_impl_script("c15_stride_impl.py", [], timeout=300)
+    strided = json.loads(so_s) if rc_s == 0 else {"error": (se_s or so_s)[-300:]}
+    ck.cov["strided_input_through_prebuilt_extension"] = strided
+    ck.case(["binding", "strided"])
+    if not contiguity_check:
+        ck.violation("C15:binding:accepts-non-contiguous-arrays",
+                     f"py_read_bes_raw takes {sig[0] if sig else '?'} (no c_style flag, no contiguity check) and RawBinaryParser walks ptr .. ptr + size(): a strided "
+                     f"uint32 view is read as if contiguous, i.e. from memory outside the words supplied.  Experiment on the importable extension (same signature): "
+                     f"a valid stream with evt_no 7 -> {strided.get('contiguous')}; the SAME words as a negative-stride view -> {strided.get('reversed_view')} "
+                     f"(4242 lives in memory placed after the view); as a stride-2 view -> {strided.get('stride2_view')}",
+                     {"mode": "binding", "script": "tools/impl/c15_stride_impl.py", "observed": strided})
+    elif isinstance(strided.get("reversed_view"), list) and strided.get("reversed_view") != strided.get("contiguous"):
+        ck.notes.append("the source requires contiguous input; the prebuilt extension (older than the source) still mis-reads strided views: " + json.dumps(strided))
     # ---- 2b decoder calls running at the same time (RawBinaryReader.arrays decodes its batches on a thread pool with the GIL
     #         released): nothing may be shared between calls.  Well-formed streams of different sizes, 6 threads, one process, ASan.
     import os as _os, subprocess as _sp
